@@ -183,6 +183,20 @@ Theorem C09_monotone_sent_prune_closed :
 Proof. exact monotone_sent_total. Qed.
 Print Assumptions C09_monotone_sent_prune_closed.
 
+(* Per counter, with no hypothesis at all (/repo HEAD, every history): each value sent is, counter by counter, not below the
+   previous value sent in the bracket, except for a counter whose own true total reached 2^64 in that very report
+   ([lstep_wraps4]: the other three counters are not excused by it); a pruned orphan is closed by a Stop at the floor. *)
+Theorem C09_monotone_per_counter :
+  forall fo fl g evs, mono4 c4z (lrun4 (V true fo fl true) g sst0 evs) = true.
+Proof. exact monotone_per_counter. Qed.
+Print Assumptions C09_monotone_per_counter.
+
+(* hypothesis W of the session-level theorems is the disjunction of the per-counter flags (one definition) *)
+Theorem C09_wrap_is_some_counter :
+  forall v e st, apply_wraps v e st = b4_any (apply_wraps4 v e st).
+Proof. exact apply_wraps_any. Qed.
+Print Assumptions C09_wrap_is_some_counter.
+
 (* ================= non-vacuity ================= *)
 Definition rd (i a : N) : snaps := Snaps (Some [(i, C4 a (a / 2) (a / 100) (a / 200))]) None.
 Definition rdg (i a : N) : snaps := Snaps (Some [(i, C4 7 7 7 7)]) (Some [(i, (a, a / 100))]).
@@ -243,6 +257,17 @@ Example C09_nonvacuous_delivery :
   map status_of (snd (drun repaired false dst0 ex_delay)) = [1; 3; 2].         (* ordered: Start, Interim, Stop *)
 Proof. vm_compute. repeat split. Qed.
 Print Assumptions C09_nonvacuous_delivery.
+
+(* the input octets wrap (2^64-1, then +7) while the packet counters go on: only the input-octet counter is flagged *)
+Example C09_nonvacuous_per_counter :
+  let evs := [EActive 5 0; ETick (Snaps (Some [(5, C4 (W - 1) 10 5 5)]) None) true;
+              ETick (Snaps (Some [(5, C4 7 4 2 1)]) None) true; EReleased (Snaps (Some [(5, C4 9 9 9 9)]) None)] in
+  map (fun x => snd x) (lrun4 head false sst0 evs) =
+    [b4_none; b4_none; B4 true false false false; B4 true false false false] /\
+  mono4 c4z (lrun4 head false sst0 evs) = true /\
+  nondecreasing_sent c4z (outputs (snd (lrun head false sst0 evs))) = false.
+Proof. vm_compute. repeat split. Qed.
+Print Assumptions C09_nonvacuous_per_counter.
 
 (* the hypotheses are needed *)
 Example C09_wrap_hypothesis_needed :
